@@ -34,9 +34,9 @@ ASSUMPTIONS = ["names bound by one pattern are pairwise distinct and or-alternat
                "subjects are Python objects (no C-typed subject specialisation)"]
 
 # set to "1" once proposed_fixes/C31-as_target_bound_to_pattern_value.diff is applied
-FX_AS = os.environ.get("C31_FX_AS", "0")
+FX_AS = os.environ.get("C31_FX_AS", "1")
 # set to "1" once proposed_fixes/C31-simple_or_pattern_inside_class_or_mapping_pattern_crashes.diff is applied
-FX_OR = os.environ.get("C31_FX_OR", "0")
+FX_OR = os.environ.get("C31_FX_OR", "1")
 
 NVARS = 6
 ATTRS = ["x", "y", "z", "w"]
